@@ -12,6 +12,13 @@ Each entry is `fn(w, q, out, ctx) -> result`:
        neighbour setting that is part of the key), so the expected result of a method never depends on whether the
        object is shared: a repeated (method, params) call on one live object must reproduce its first result whatever
        other methods ran on the object in between.
+Round 3: parameter sets with "dflt" OMIT the keywords that have mutable defaults (ppp arrays, diameters / radii dicts)
+where the default describes the world (`_ppp_kw`, `_dyn`, `e_getinput`); frame indices are taken modulo the number of
+frames (n = -1: the last frame) and entries that need a lag or a time window declare `minT`; `ctx.nm(name)` gives the odd
+parameter sets an output name inside a sub-directory; getresults() / unary() / the k-ary method of gr and of sq go through
+ONE object per constructor arguments, Lennard-Jones / inverse-power-law / harmonic Hessians through one HessianMatrix
+("hzobj"), PairInteractions evaluates every model twice on one object; integer conditions (sq4, conditional_sq), a single
+wave vector, NematicOrder without position snapshots, boo_2d(output_phi=...), write_dump_header(addson=None).
 Which public callables of PyMatterSim each entry exercises is MEASURED (c18_inventory.py traces one run of every
 (entry, params, out)), not declared.
 The result is a plain structure of arrays / DataFrames / strings that `c18_world.same` can compare.  For routines that
@@ -107,8 +114,20 @@ FAMILIES = {}
 
 
 class Ctx:
-    def __init__(self, objs=None):
+    def __init__(self, objs=None, style=0):
         self.objs = objs
+        self.style = style
+
+    def nm(self, base):
+        """Name of a requested text / csv output file: as it stands (style 0), or (style 1: the odd parameter sets of an
+        entry) inside a sub-directory of the working directory and with an extra dot -- 'res.v1/gr.run2.csv' is as valid a
+        request as 'gr.csv'.  The extension is kept (the docs ask for 'filename.csv'; vector_decomposition_sq appends
+        '.csv' to any other name)."""
+        if not self.style:
+            return base
+        os.makedirs("res.v1", exist_ok=True)
+        stem, ext = os.path.splitext(base)
+        return os.path.join("res.v1", stem + ".run2" + ext)
 
     def obj(self, key, make):
         if self.objs is None:
@@ -118,9 +137,10 @@ class Ctx:
         return self.objs[key]
 
 
-def entry(name, fam, P, dims=(2, 3), tri=False, out=False, ok=None):
+def entry(name, fam, P, dims=(2, 3), tri=False, out=False, ok=None, minT=1):
+    """minT: number of frames the routine needs (a lag / a time window): not eligible in worlds with fewer frames."""
     def deco(fn):
-        fn.name, fn.fam, fn.P, fn.dims, fn.tri, fn.has_out, fn.ok = name, fam, P, dims, tri, out, ok
+        fn.name, fn.fam, fn.P, fn.dims, fn.tri, fn.has_out, fn.ok, fn.minT = name, fam, P, dims, tri, out, ok, minT
         CATALOGUE[name] = fn
         FAMILIES.setdefault(fam, []).append(name)
         return fn
@@ -128,7 +148,25 @@ def entry(name, fam, P, dims=(2, 3), tri=False, out=False, ok=None):
 
 
 def eligible(fn, w):
-    return w.d in fn.dims and (fn.tri or w.cellkind == "ortho") and (fn.ok is None or fn.ok(w))
+    return w.d in fn.dims and (fn.tri or w.cellkind == "ortho") and w.T >= fn.minT and (fn.ok is None or fn.ok(w))
+
+
+def _fr(w, q):
+    """Frame index of a parameter set (0, 1, ... or -1 = the last frame) in a world of w.T frames."""
+    return q["n"] % w.T
+
+
+def _ppp_kw(w, q, nd):
+    """The `ppp` keyword of a call.  Parameter sets with "dflt" OMIT it where the routine's own default (an array created
+    once at import: all ones of length nd) describes the world -- that shared default object is then the argument, and it is
+    watched like every other argument (c18_inventory.check_defaults)."""
+    if q.get("dflt") and w.d == nd and bool(np.all(w.A["ppp"] == 1)):
+        return {}
+    return {"ppp": w.A["ppp"]}
+
+
+def _labels_12(w):
+    return set(w.labels) <= {1, 2}
 
 
 def _text(path, what):
@@ -158,20 +196,27 @@ def _npy_dat(what, name, arr, fmt):
 
 # ============================================================================= pair correlations / structure factors
 
-@entry("gr.getresults", "pair", [{"rd": 0.1, "s": "x"}, {"rd": 0.05, "s": "x"}, {"rd": 0.1, "s": "xu"}], tri=True, out=True)
+def _gr_obj(w, q, out, ctx):
+    """One gr object per (constructor arguments): getresults() / unary() / the k-ary method are METHODS of it and, in a
+    session, are called on the same object in any order (each writes the object's output file with what it returns)."""
+    of = ctx.nm("gr.csv") if out else None
+    return of, ctx.obj(("gr", q["rd"], q["s"], of, q.get("dflt")),
+                       lambda: gr(w.snaps[q["s"]], rdelta=q["rd"], outputfile=of, **_ppp_kw(w, q, 3)))
+
+
+@entry("gr.getresults", "pair", [{"rd": 0.1, "s": "x"}, {"rd": 0.05, "s": "x"}, {"rd": 0.1, "s": "xu"},
+                                 {"rd": 0.05, "s": "xu", "dflt": True}], tri=True, out=True)
 def e_gr(w, q, out, ctx):
-    of = "gr.csv" if out else None
-    g = ctx.obj(("gr", q["rd"], q["s"], out), lambda: gr(w.snaps[q["s"]], ppp=w.A["ppp"], rdelta=q["rd"], outputfile=of))
+    of, g = _gr_obj(w, q, out, ctx)
     res = g.getresults()
     if out:
         _csv_check("gr.getresults", of, res)
     return res
 
 
-@entry("gr.unary", "pair", [{"rd": 0.1}, {"rd": 0.07}], tri=True, out=True)
+@entry("gr.unary", "pair", [{"rd": 0.1, "s": "x"}, {"rd": 0.05, "s": "x"}, {"rd": 0.07, "s": "x"}], tri=True, out=True)
 def e_gr_unary(w, q, out, ctx):
-    of = "gr1.csv" if out else None
-    g = ctx.obj(("gr1", q["rd"], out), lambda: gr(w.snaps["x"], ppp=w.A["ppp"], rdelta=q["rd"], outputfile=of))
+    of, g = _gr_obj(w, q, out, ctx)
     res = g.unary()
     if out:
         _csv_check("gr.unary", of, res)
@@ -181,20 +226,26 @@ def e_gr_unary(w, q, out, ctx):
 _KARY = ["unary", "binary", "ternary", "quarternary", "quinary"]
 
 
-@entry("gr.k-ary", "pair", [{"rd": 0.1, "s": "x"}, {"rd": 0.08, "s": "xu"}], tri=True, out=True)
+def _kary(w):
+    """The method getresults() dispatches to: one per number of species up to five, 'only overall' (unary) beyond."""
+    return _KARY[w.K - 1] if w.K <= 5 else "unary"
+
+
+@entry("gr.k-ary", "pair", [{"rd": 0.1, "s": "x"}, {"rd": 0.08, "s": "xu"}, {"rd": 0.1, "s": "xu"}], tri=True, out=True)
 def e_gr_kary(w, q, out, ctx):
     """gr.binary() / .ternary() / .quarternary() / .quinary() called directly (the method for the number of species)."""
-    of = "grk.csv" if out else None
-    g = ctx.obj(("gr", q["rd"], q["s"], out, "k"), lambda: gr(w.snaps[q["s"]], ppp=w.A["ppp"], rdelta=q["rd"], outputfile=of))
-    res = getattr(g, _KARY[w.K - 1])()
+    of, g = _gr_obj(w, q, out, ctx)
+    res = getattr(g, _kary(w))()
     if out:
-        _csv_check("gr." + _KARY[w.K - 1], of, res)
+        _csv_check("gr." + _kary(w), of, res)
     return res
 
 
 def _condition(w, kind, n):
     if kind == "bool":
         return w.A["mask"][n], None
+    if kind == "int":
+        return w.A["mask_int"][n], None
     if kind in ("pin", "gap"):  # a selection of the pinned set / (degenerate worlds) of nobody
         return w.cond(kind)[w.gapframe if kind == "gap" else n], None
     if kind == "real":
@@ -208,11 +259,12 @@ def _condition(w, kind, n):
 
 @entry("conditional_gr", "pair", [{"k": "bool", "n": 0}, {"k": "real", "n": 1}, {"k": "complex", "n": 0},
                                   {"k": "vector", "n": 1}, {"k": "tensor", "n": 0}, {"k": "real", "n": 0},
-                                  {"k": "pin", "n": 1}, {"k": "gap", "n": 0}], tri=True)
+                                  {"k": "pin", "n": 1}, {"k": "gap", "n": 0}, {"k": "tensor", "n": -1, "dflt": True},
+                                  {"k": "bool", "n": -1, "dflt": True}], tri=True)
 def e_cgr(w, q, out, ctx):
-    cond, ctype = _condition(w, q["k"], q["n"])
-    n = w.gapframe if q["k"] == "gap" else q["n"]
-    return conditional_gr(w.snaps["x"].snapshots[n], condition=cond, conditiontype=ctype, ppp=w.A["ppp"], rdelta=0.1)
+    cond, ctype = _condition(w, q["k"], _fr(w, q))
+    n = w.gapframe if q["k"] == "gap" else _fr(w, q)
+    return conditional_gr(w.snaps["x"].snapshots[n], condition=cond, conditiontype=ctype, rdelta=0.1, **_ppp_kw(w, q, 3))
 
 
 _SQ_P = [{"m": "range", "qr": 8.0, "op": False}, {"m": "range", "qr": 10.0, "op": True}, {"m": "vec"},
@@ -228,7 +280,7 @@ def _sq_obj(w, q, out, ctx, of, tag):
         if q["m"] == "vec":
             return sq(w.snaps["x"], qvector=w.A["qvec"], saveqvectors=bool(out), outputfile=of)
         return sq(w.snaps["x"], qrange=q["qr"], onlypositive=q["op"], saveqvectors=bool(out), outputfile=of)
-    return ctx.obj((tag, q["m"], q.get("qr"), q.get("op"), out), make)
+    return ctx.obj(("sq", q["m"], q.get("qr"), q.get("op"), out), make)  # one object for getresults / unary / k-ary
 
 
 @entry("sq.getresults", "pair", _SQ_P, out=True)
@@ -239,64 +291,68 @@ def e_sq(w, q, out, ctx):
     res = _sq_obj(w, q, out, ctx, of, "sq").getresults()
     if out:
         _csv_check("sq.getresults", of, res)
-        need_file("sq_qvectors.csv", "sq(saveqvectors=True)")
+        # the per-vector table is not returned; its text is compared between repeated calls
+        return (res, _text("sq_qvectors.csv", "sq(saveqvectors=True)"))
     return res
 
 
 @entry("sq.unary", "pair", _SQ_P[:3], out=True)
 def e_sq_unary(w, q, out, ctx):
-    of = "sq1.csv" if out else None
+    of = "sq.csv" if out else None
     res = _sq_obj(w, q, out, ctx, of, "sq1").unary()
     if out:
         _csv_check("sq.unary", of, res)
+        return (res, _text("sq_qvectors.csv", "sq(saveqvectors=True)"))
     return res
 
 
 @entry("sq.k-ary", "pair", _SQ_P[:4], out=True)
 def e_sq_kary(w, q, out, ctx):
     """sq.binary() / .ternary() / .quarternary() / .quinary() called directly (the method for the number of species)."""
-    of = "sqk.csv" if out else None
-    res = getattr(_sq_obj(w, q, out, ctx, of, "sqk"), _KARY[w.K - 1])()
+    of = "sq.csv" if out else None
+    res = getattr(_sq_obj(w, q, out, ctx, of, "sqk"), _kary(w))()
     if out:
-        _csv_check("sq." + _KARY[w.K - 1], of, res)
+        _csv_check("sq." + _kary(w), of, res)
+        return (res, _text("sq_qvectors.csv", "sq(saveqvectors=True)"))
     return res
 
 
 @entry("conditional_sq", "pair", [{"k": "bool", "n": 0}, {"k": "real", "n": 1}, {"k": "vector", "n": 0}, {"k": "bool", "n": 1},
-                                  {"k": "pin", "n": 0}, {"k": "gap", "n": 0}])
+                                  {"k": "pin", "n": 0}, {"k": "gap", "n": 0}, {"k": "int", "n": -1}, {"k": "complex", "n": -1, "one": True}])
 def e_csq(w, q, out, ctx):
-    cond, _ = _condition(w, q["k"], q["n"])
-    a, b = conditional_sq(w.snaps["x"].snapshots[q["n"]], qvector=w.A["qvec"], condition=cond)
+    cond, _ = _condition(w, q["k"], _fr(w, q))
+    qv = w.A["qvec"][2:3] if q.get("one") else w.A["qvec"]  # a single wave vector (a view of the shared table)
+    a, b = conditional_sq(w.snaps["x"].snapshots[_fr(w, q)], qvector=qv, condition=cond)
     return (a, b)
 
 
 # ============================================================================= neighbours
 
-@entry("Nnearests", "neigh", [{"N": 1}, {"N": 3}, {"N": "max"}], tri=True, out=True)
+@entry("Nnearests", "neigh", [{"N": 1}, {"N": 3}, {"N": "max"}, {"N": 2, "dflt": True}], tri=True, out=True)
 def e_nn(w, q, out, ctx):
     n = w.N - 1 if q["N"] == "max" else q["N"]
     if out:
-        ret = Nnearests(w.snaps["x"], N=n, ppp=w.A["ppp"], fnfile="nn.dat")
-        name = "nn.dat"
+        name = ctx.nm("nn.dat")
+        ret = Nnearests(w.snaps["x"], N=n, fnfile=name, **_ppp_kw(w, q, 3))
     else:
-        ret = Nnearests(w.snaps["x"], N=n, ppp=w.A["ppp"])
+        ret = Nnearests(w.snaps["x"], N=n, **_ppp_kw(w, q, 3))
         name = "neighborlist.dat"
     return (ret, _text(name, "Nnearests"))
 
 
-@entry("cutoffneighbors", "neigh", [{"f": 0.3}, {"f": 0.45}], tri=True, out=True)
+@entry("cutoffneighbors", "neigh", [{"f": 0.3}, {"f": 0.45}, {"f": 0.35, "dflt": True}], tri=True, out=True)
 def e_cut(w, q, out, ctx):
-    name = "cut.dat" if out else "neighborlist.dat"
+    name = ctx.nm("cut.dat") if out else "neighborlist.dat"
     kw = {"fnfile": name} if out else {}
-    ret = cutoffneighbors(w.snaps["x"], r_cut=q["f"] * w.Lmin, ppp=w.A["ppp"], **kw)
+    ret = cutoffneighbors(w.snaps["x"], r_cut=q["f"] * w.Lmin, **_ppp_kw(w, q, 3), **kw)
     return (ret, _text(name, "cutoffneighbors"))
 
 
-@entry("cutoffneighbors_particletype", "neigh", [{}], tri=True, out=True)
+@entry("cutoffneighbors_particletype", "neigh", [{}, {"dflt": True}], tri=True, out=True)
 def e_cutt(w, q, out, ctx):
-    name = "cutt.dat" if out else "neighborlist.dat"
+    name = ctx.nm("cutt.dat") if out else "neighborlist.dat"
     kw = {"fnfile": name} if out else {}
-    ret = cutoffneighbors_particletype(w.snaps["x"], r_cut=w.A["rcut_mat"], ppp=w.A["ppp"], **kw)
+    ret = cutoffneighbors_particletype(w.snaps["x"], r_cut=w.A["rcut_mat"], **_ppp_kw(w, q, 3), **kw)
     return (ret, _text(name, "cutoffneighbors_particletype"))
 
 
@@ -331,16 +387,16 @@ def e_volmat(w, q, out, ctx):
 
 # ============================================================================= bond-orientational order
 
-_B3 = [{"l": 4, "w": False}, {"l": 6, "w": True}, {"l": 2, "w": False}, {"l": 2, "w": True}]
+_B3 = [{"l": 4, "w": False}, {"l": 6, "w": True}, {"l": 2, "w": False}, {"l": 2, "w": True}, {"l": 6, "w": False, "dflt": True}]
 
 
 def _boo3(w, b, ctx):
     c = _B3[b]
     return ctx.obj(("boo3", b), lambda: boo_3d(w.snaps["x"], l=c["l"], neighborfile=w.files["neigh"],
-                                                weightsfile=w.files["weights"] if c["w"] else None, ppp=w.A["ppp"], Nmax=30))
+                                                weightsfile=w.files["weights"] if c["w"] else None, Nmax=30, **_ppp_kw(w, c, 3)))
 
 
-@entry("boo_3d.qlm_Qlm", "boo", [{"b": 0}, {"b": 1}, {"b": 2}], dims=(3,), tri=True)
+@entry("boo_3d.qlm_Qlm", "boo", [{"b": 0}, {"b": 1}, {"b": 2}, {"b": 4}], dims=(3,), tri=True)
 def e_b3_qlm(w, q, out, ctx):
     b = _boo3(w, q["b"], ctx)
     s, l_ = b.qlm_Qlm()
@@ -351,7 +407,8 @@ def e_b3_qlm(w, q, out, ctx):
 # buffer / cache shared between the two branches on one live object
 @entry("boo_3d.ql_Ql", "boo", [{"b": 0, "cg": False, "fmt": "npy"}, {"b": 1, "cg": True, "fmt": "dat"},
                               {"b": 2, "cg": True, "fmt": "npy"}, {"b": 0, "cg": True, "fmt": "dat"},
-                              {"b": 1, "cg": False, "fmt": "npy"}, {"b": 2, "cg": False, "fmt": "dat"}], dims=(3,), tri=True, out=True)
+                              {"b": 1, "cg": False, "fmt": "npy"}, {"b": 2, "cg": False, "fmt": "dat"},
+                              {"b": 4, "cg": True, "fmt": "npy"}], dims=(3,), tri=True, out=True)
 def e_b3_ql(w, q, out, ctx):
     name = ("ql.npy" if q["fmt"] == "npy" else "ql.dat") if out else None
     res = _boo3(w, q["b"], ctx).ql_Ql(coarse_graining=q["cg"], outputfile=name)
@@ -396,7 +453,7 @@ def e_b3_w(w, q, out, ctx):
 @entry("boo_3d.spatial_corr", "boo", [{"b": 0, "cg": False}, {"b": 1, "cg": True}, {"b": 0, "cg": True}, {"b": 1, "cg": False}],
        dims=(3,), tri=True, out=True)
 def e_b3_sc(w, q, out, ctx):
-    of = "gl.csv" if out else ""
+    of = ctx.nm("gl.csv") if out else ""
     res = _boo3(w, q["b"], ctx).spatial_corr(coarse_graining=q["cg"], rdelta=0.1, outputfile=of)
     if out:
         _csv_check("boo_3d.spatial_corr", of, res)
@@ -406,23 +463,31 @@ def e_b3_sc(w, q, out, ctx):
 @entry("boo_3d.time_corr", "boo", [{"b": 0, "cg": False}, {"b": 1, "cg": True}, {"b": 0, "cg": True}, {"b": 1, "cg": False}],
        dims=(3,), tri=True, out=True)
 def e_b3_tc(w, q, out, ctx):
-    of = "gt.csv" if out else ""
+    of = ctx.nm("gt.csv") if out else ""
     res = _boo3(w, q["b"], ctx).time_corr(coarse_graining=q["cg"], dt=w.dt, outputfile=of)
     if out:
         _csv_check("boo_3d.time_corr", of, res)
     return res
 
 
-_B2 = [{"l": 6, "w": False}, {"l": 4, "w": True}, {"l": 5, "w": False}]
+_B2 = [{"l": 6, "w": False}, {"l": 4, "w": True}, {"l": 5, "w": False}, {"l": 6, "w": True, "dflt": True, "phi": True}]
 
 
 def _boo2(w, b, ctx):
     c = _B2[b]
-    return ctx.obj(("boo2", b), lambda: boo_2d(w.snaps["x"], l=c["l"], neighborfile=w.files["neigh"],
-                                                weightsfile=w.files["weights"] if c["w"] else "", ppp=w.A["ppp"], Nmax=10))
+
+    def make():
+        # "phi": the constructor itself is asked for an output file of the order parameter it stores
+        kw = {"output_phi": "phi_init.npy"} if c.get("phi") else {}
+        o = boo_2d(w.snaps["x"], l=c["l"], neighborfile=w.files["neigh"], weightsfile=w.files["weights"] if c["w"] else "",
+                   Nmax=10, **_ppp_kw(w, c, 2), **kw)
+        if kw:
+            _npy_check("boo_2d(output_phi=...)", "phi_init.npy", o.ParticlePhi)
+        return o
+    return ctx.obj(("boo2", b), make)
 
 
-@entry("boo_2d.lthorder", "boo", [{"b": 0}, {"b": 1}, {"b": 2}], dims=(2,), tri=True, out=True)
+@entry("boo_2d.lthorder", "boo", [{"b": 0}, {"b": 1}, {"b": 2}, {"b": 3}], dims=(2,), tri=True, out=True)
 def e_b2_l(w, q, out, ctx):
     of = "phi.npy" if out else ""
     b = _boo2(w, q["b"], ctx)
@@ -434,7 +499,7 @@ def e_b2_l(w, q, out, ctx):
 
 @entry("boo_2d.time_average", "boo", [{"b": 0, "w": 1, "ac": True}, {"b": 1, "w": -1, "ac": False}, {"b": 0, "w": -1, "ac": True},
                                       {"b": 0, "w": 1, "ac": False}, {"b": 1, "w": 1, "ac": True}],
-       dims=(2,), tri=True, out=True)
+       dims=(2,), tri=True, out=True, minT=2)
 def e_b2_ta(w, q, out, ctx):
     win = q["w"] if q["w"] > 0 else w.T - 1
     of = "phi_ave.npy" if out else ""
@@ -448,16 +513,16 @@ def e_b2_ta(w, q, out, ctx):
 
 @entry("boo_2d.spatial_corr", "boo", [{"b": 0}, {"b": 1}], dims=(2,), tri=True, out=True)
 def e_b2_sc(w, q, out, ctx):
-    of = "g6.csv" if out else ""
+    of = ctx.nm("g6.csv") if out else ""
     res = _boo2(w, q["b"], ctx).spatial_corr(rdelta=0.1, outputfile=of)
     if out:
         _csv_check("boo_2d.spatial_corr", of, res)
     return res
 
 
-@entry("boo_2d.time_corr", "boo", [{"b": 0}, {"b": 1}], dims=(2,), tri=True, out=True)
+@entry("boo_2d.time_corr", "boo", [{"b": 0}, {"b": 1}, {"b": 3}], dims=(2,), tri=True, out=True)
 def e_b2_tc(w, q, out, ctx):
-    of = "g6t.csv" if out else ""
+    of = ctx.nm("g6t.csv") if out else ""
     res = _boo2(w, q["b"], ctx).time_corr(dt=w.dt, outputfile=of)
     if out:
         _csv_check("boo_2d.time_corr", of, res)
@@ -467,13 +532,20 @@ def e_b2_tc(w, q, out, ctx):
 # ============================================================================= dynamics
 
 _DYN = [{"m": "xu", "cal": "slow", "nb": False}, {"m": "x", "cal": "fast", "nb": False},
-        {"m": "both", "cal": "slow", "nb": True}, {"m": "xu", "cal": "fast", "nb": True}]
+        {"m": "both", "cal": "slow", "nb": True}, {"m": "xu", "cal": "fast", "nb": True},
+        {"m": "xu", "cal": "fast", "nb": False, "dflt": True}]
 
 
 def _dyn(cls, w, c, ctx, tag):
     def make():
         kw = dict(dt=w.dt, diameters=w.diameters, a=0.3, cal_type=c["cal"],
                   neighborfile=w.files["neigh"] if c["nb"] else "", max_neighbors=30)
+        if c.get("dflt"):
+            # the defaults of the signature where they describe the world: ppp = zeros(3) for unwrapped 3D coordinates,
+            # diameters = {1: 1.0, 2: 1.0} for species labels within {1, 2} (and, off-domain, for any labels)
+            if _labels_12(w) or w.tolerant:  # (off-domain worlds: a label without a diameter gives NaN, purity still holds)
+                del kw["diameters"]
+            return cls(xu_snapshots=w.snaps["xu"], **({} if w.d == 3 else {"ppp": w.A["ppp0"]}), **kw)
         if c["m"] == "xu":
             return cls(xu_snapshots=w.snaps["xu"], ppp=w.A["ppp0"], **kw)
         if c["m"] == "x":
@@ -488,9 +560,11 @@ def _dyn(cls, w, c, ctx, tag):
 @entry("Dynamics.relaxation", "dyn", [{"c": 0, "cond": None}, {"c": 1, "cond": "mix"}, {"c": 2, "cond": None},
                                       {"c": 3, "cond": "mix"}, {"c": 0, "cond": "mix"}, {"c": 1, "cond": None},
                                       {"c": 0, "cond": "pin"}, {"c": 1, "cond": "pin"}, {"c": 0, "cond": "mob"},
-                                      {"c": 1, "cond": "gap"}, {"c": 2, "cond": "pin"}, {"c": 0, "cond": "gap"}], tri=True, out=True)
+                                      {"c": 1, "cond": "gap"}, {"c": 2, "cond": "pin"}, {"c": 0, "cond": "gap"},
+                                      {"c": 4, "cond": None}, {"c": 4, "cond": "mix"}, {"c": 3, "cond": "mob"}],
+       tri=True, out=True, minT=2)
 def e_dyn(w, q, out, ctx):
-    of = "dyn.csv" if out else ""
+    of = ctx.nm("dyn.csv") if out else ""
     d = _dyn(Dynamics, w, _DYN[q["c"]], ctx, "dyn")
     res = d.relaxation(qconst=2 * np.pi, condition=w.cond(q["cond"]) if q["cond"] else None, outputfile=of)
     if out:
@@ -503,15 +577,17 @@ def _sq4_params(w):
                         {"m": "both", "cal": "slow"}) if c["cal"] in w.sq4_ok]
 
 
-@entry("Dynamics.sq4", "dyn", [{"i": 0, "cond": False}, {"i": 1, "cond": False}, {"i": 0, "cond": True}, {"i": 1, "cond": True}],
-       out=True, ok=lambda w: bool(w.sq4_ok))
+@entry("Dynamics.sq4", "dyn", [{"i": 0, "cond": False}, {"i": 1, "cond": False}, {"i": 0, "cond": True}, {"i": 1, "cond": True},
+                               {"i": 0, "cond": "int"}, {"i": 1, "cond": "int"}],
+       out=True, ok=lambda w: bool(w.sq4_ok), minT=2)
 def e_sq4(w, q, out, ctx):
     ps = _sq4_params(w)
     c = dict(ps[q["i"] % len(ps)], nb=False)
-    of = "sq4.csv" if out else ""
+    of = ctx.nm("sq4.csv") if out else ""
     d = _dyn(Dynamics, w, c, ctx, "dyn")
     # a condition is only passed where the selected AND mobile subset is non-empty in every origin frame
-    cond = w.A["mask"] if q["cond"] and c["cal"] in w.sq4_ok_cond else None
+    # ("int": the same selection as a 0/1 integer array -- sq4 casts the condition with astype(bool))
+    cond = w.A["mask_int" if q["cond"] == "int" else "mask"] if q["cond"] and c["cal"] in w.sq4_ok_cond else None
     res = d.sq4(t=w.step * w.dt, qrange=8.0, condition=cond, outputfile=of)
     if out:
         _csv_check("Dynamics.sq4", of, res)
@@ -520,10 +596,11 @@ def e_sq4(w, q, out, ctx):
 
 @entry("LogDynamics.relaxation", "dyn", [{"c": 0, "cond": None}, {"c": 1, "cond": "mix"}, {"c": 3, "cond": None},
                                          {"c": 0, "cond": "mix"}, {"c": 0, "cond": "pin"}, {"c": 1, "cond": "pin"},
-                                         {"c": 1, "cond": "mob"}, {"c": 0, "cond": "gap"}],
-       tri=True, out=True)
+                                         {"c": 1, "cond": "mob"}, {"c": 0, "cond": "gap"}, {"c": 4, "cond": "mix"},
+                                         {"c": 2, "cond": None}],
+       tri=True, out=True, minT=2)
 def e_logdyn(w, q, out, ctx):
-    of = "logdyn.csv" if out else ""
+    of = ctx.nm("logdyn.csv") if out else ""
     d = _dyn(LogDynamics, w, _DYN[q["c"]], ctx, "logdyn")
     # one mask for all frames; 'gap': the frame of the per-frame mask in which nobody is selected
     cond = w.cond(q["cond"])[w.gapframe if q["cond"] == "gap" else 0] if q["cond"] else None
@@ -538,7 +615,7 @@ _FIELD = {"real": "scalar", "complex": "cplx", "vector": "vec", "tensor": "tens"
 
 @entry("time_correlation", "dyn", [{"k": "real"}, {"k": "complex"}, {"k": "vector"}, {"k": "tensor"}], tri=True, out=True)
 def e_tcorr(w, q, out, ctx):
-    of = "tcorr.csv" if out else ""
+    of = ctx.nm("tcorr.csv") if out else ""
     res = time_correlation(w.snaps["x"], condition=w.A[_FIELD[q["k"]]], dt=w.dt, outputfile=of)
     if out:
         _csv_check("time_correlation", of, res)
@@ -547,31 +624,31 @@ def e_tcorr(w, q, out, ctx):
 
 # ============================================================================= vector fields
 
-@entry("participation_ratio", "vec", [{"n": 0}, {"n": 1}], tri=True)
+@entry("participation_ratio", "vec", [{"n": 0}, {"n": 1}, {"n": -1}], tri=True)
 def e_pr(w, q, out, ctx):
-    return participation_ratio(w.A["vec"][q["n"]])
+    return participation_ratio(w.A["vec"][_fr(w, q)])
 
 
-@entry("local_vector_alignment", "vec", [{"n": 0}, {"n": 1}], tri=True)
+@entry("local_vector_alignment", "vec", [{"n": 0}, {"n": 1}, {"n": -1}], tri=True)
 def e_lva(w, q, out, ctx):
-    return local_vector_alignment(w.A["vec"][q["n"]], w.files["neigh"])
+    return local_vector_alignment(w.A["vec"][_fr(w, q)], w.files["neigh"])
 
 
-@entry("phase_quotient", "vec", [{"n": 0}, {"n": 1}], tri=True)
+@entry("phase_quotient", "vec", [{"n": 0}, {"n": 1}, {"n": -1}], tri=True)
 def e_pq(w, q, out, ctx):
-    return phase_quotient(w.A["vec"][q["n"]], w.files["neigh"])
+    return phase_quotient(w.A["vec"][_fr(w, q)], w.files["neigh"])
 
 
-@entry("divergence_curl", "vec", [{"n": 0}, {"n": 1}], tri=True)
+@entry("divergence_curl", "vec", [{"n": 0}, {"n": 1}, {"n": -1}], tri=True)
 def e_dc(w, q, out, ctx):
-    res = divergence_curl(w.snaps["x"].snapshots[q["n"]], w.A["vec"][q["n"]], w.A["ppp"], w.files["neigh"])
+    res = divergence_curl(w.snaps["x"].snapshots[_fr(w, q)], w.A["vec"][_fr(w, q)], w.A["ppp"], w.files["neigh"])
     return res if isinstance(res, np.ndarray) else tuple(res)
 
 
-@entry("vector_decomposition_sq", "vec", [{"n": 0}, {"n": 1}], out=True)
+@entry("vector_decomposition_sq", "vec", [{"n": 0}, {"n": 1}, {"n": -1}], out=True)
 def e_vdsq(w, q, out, ctx):
-    of = "lt.csv" if out else ""
-    a, b = vector_decomposition_sq(w.snaps["x"].snapshots[q["n"]], w.A["qvec"], w.A["vec"][q["n"]], outputfile=of)
+    of = ctx.nm("lt.csv") if out else ""
+    a, b = vector_decomposition_sq(w.snaps["x"].snapshots[_fr(w, q)], w.A["qvec"], w.A["vec"][_fr(w, q)], outputfile=of)
     if out:
         _csv_check("vector_decomposition_sq", of, b)
     return (a, b)
@@ -585,8 +662,8 @@ def e_vfc(w, q, out, ctx):
         if not isinstance(res, dict) or h not in res:
             raise Violation(f"vector_fft_corr: result has no table {h!r}")
         _npy_check(f"vector_fft_corr[{h}]", f"{of}.{h}.npy", res[h].values)
-    need_file(of + ".spectra.csv", "vector_fft_corr")
-    return res
+    # the averaged spectra are written, not returned: their text is compared between repeated calls
+    return (res, _text(of + ".spectra.csv", "vector_fft_corr"))
 
 
 @entry("vibrability", "vec", [{}], tri=True, out=True)
@@ -610,39 +687,42 @@ def e_sa(w, q, out, ctx):
     return res
 
 
-@entry("gaussian_blurring", "cg", [{"k": "real"}, {"k": "vector"}, {"k": "tensor"}], out=True)
+@entry("gaussian_blurring", "cg", [{"k": "real"}, {"k": "vector"}, {"k": "tensor"}, {"k": "real", "dflt": True}], out=True)
 def e_gb(w, q, out, ctx):
     of = "gb" if out else ""
-    pos, prop = gaussian_blurring(w.snaps["x"], w.A[_FIELD[q["k"]]], w.A["ngrids"], sigma=0.5, ppp=w.A["ppp"],
-                                  gaussian_cut=0.45 * w.Lmin, outputfile=of)
+    pos, prop = gaussian_blurring(w.snaps["x"], w.A[_FIELD[q["k"]]], w.A["ngrids"], sigma=0.5,
+                                  gaussian_cut=0.45 * w.Lmin, outputfile=of, **_ppp_kw(w, q, 3))
     if out:
         _npy_check("gaussian_blurring(positions)", of + "_positions.npy", pos)
         _npy_check("gaussian_blurring(properties)", of + "_properties.npy", prop)
     return (pos, prop)
 
 
-@entry("time_average", "cg", [{"k": "real", "w": 1}, {"k": "complex", "w": -1}, {"k": "real", "w": -1}], tri=True)
+@entry("time_average", "cg", [{"k": "real", "w": 1}, {"k": "complex", "w": -1}, {"k": "real", "w": -1}, {"k": "complex", "w": 2}],
+       tri=True, minT=2)
 def e_ta(w, q, out, ctx):
-    win = q["w"] if q["w"] > 0 else w.T - 1
+    win = min(q["w"], w.T - 1) if q["w"] > 0 else w.T - 1
     a, ids = time_average(w.snaps["x"], w.A[_FIELD[q["k"]]], time_period=(win + 0.5) * w.step * w.dt, dt=w.dt)
     return (a, ids)
 
 
 # ============================================================================= local order / shape
 
-def _s2(w, ctx):
+def _s2(w, ctx, q=None):
     """One S2 object per history when reuse is drawn; particle_s2() has run, so every method may be called."""
+    q = q or {}
+
     def make():
-        o = S2(w.snaps["x"], sigmas=w.A["s2sig"], ppp=w.A["ppp"], rdelta=0.05, ndelta=24)
+        o = S2(w.snaps["x"], sigmas=w.A["s2sig"], rdelta=0.05, ndelta=24, **_ppp_kw(w, q, 3))
         o.particle_s2()
         return o
-    return ctx.obj(("S2",), make)
+    return ctx.obj(("S2", bool(q.get("dflt"))), make)
 
 
-@entry("S2.particle_s2", "s2", [{"gr": False}, {"gr": True}], tri=True, out=True)
+@entry("S2.particle_s2", "s2", [{"gr": False}, {"gr": True}, {"gr": False, "dflt": True}], tri=True, out=True)
 def e_s2(w, q, out, ctx):
     of = "s2.npy" if out else ""
-    obj = _s2(w, ctx)
+    obj = _s2(w, ctx, q)
     if q["gr"]:
         s, g = obj.particle_s2(savegr=True, outputfile=of)
         if out:
@@ -657,7 +737,7 @@ def e_s2(w, q, out, ctx):
 
 @entry("S2.spatial_corr", "s2", [{"mn": False}, {"mn": True}], tri=True, out=True)
 def e_s2_sc(w, q, out, ctx):
-    of = "s2_gl.csv" if out else ""
+    of = ctx.nm("s2_gl.csv") if out else ""
     obj = _s2(w, ctx)
     res = obj.spatial_corr(mean_norm=q["mn"], outputfile=of)
     if out:
@@ -665,39 +745,40 @@ def e_s2_sc(w, q, out, ctx):
     return (res, obj.s2_results)
 
 
-@entry("S2.time_corr", "s2", [{"dt": 0.002}, {"dt": 0.005}], tri=True, out=True)
+@entry("S2.time_corr", "s2", [{"dt": 0.002}, {"dt": 0.005}, {"dt": 0.002, "dflt": True}], tri=True, out=True)
 def e_s2_tc(w, q, out, ctx):
-    of = "s2_t.csv" if out else ""
-    obj = _s2(w, ctx)
+    of = ctx.nm("s2_t.csv") if out else ""
+    obj = _s2(w, ctx, q)
     res = obj.time_corr(dt=q["dt"], outputfile=of)
     if out:
         _csv_check("S2.time_corr", of, res)
     return (res, obj.s2_results)
 
 
-@entry("q8_tetrahedral", "order", [{"s": "x"}, {"s": "xu"}], dims=(3,), tri=True, out=True)
+@entry("q8_tetrahedral", "order", [{"s": "x"}, {"s": "xu"}, {"s": "x", "dflt": True}], dims=(3,), tri=True, out=True)
 def e_q8(w, q, out, ctx):
     of = "q8.npy" if out else ""
-    res = q8_tetrahedral(w.snaps[q["s"]], ppp=w.A["ppp"], outputfile=of)
+    res = q8_tetrahedral(w.snaps[q["s"]], outputfile=of, **_ppp_kw(w, q, 3))
     if out:
         _npy_check("q8_tetrahedral", of, res)
     return res
 
 
-def _nem(w, nb, ctx):
-    """One NematicOrder object per (history, neighbour setting); tensor() has run, so QIJ is defined."""
+def _nem(w, nb, ctx, pos=True):
+    """One NematicOrder object per (history, neighbour setting, with / without the position snapshots -- they are "only
+    required for spatial correlation calculation"); tensor() has run, so QIJ is defined."""
     def make():
-        o = NematicOrder(w.snaps["orient"], w.snaps["x"])
+        o = NematicOrder(w.snaps["orient"], w.snaps["x"]) if pos else NematicOrder(w.snaps["orient"])
         o.tensor(ndim=2, neighborfile=w.files["neigh"] if nb else "", Nmax=30, outputfile="init")
         return o
-    return ctx.obj(("nematic", nb), make)
+    return ctx.obj(("nematic", nb, pos), make)
 
 
 @entry("NematicOrder.tensor", "nematic", [{"nb": False, "ev": False}, {"nb": True, "ev": True}, {"nb": True, "ev": False},
-                                          {"nb": False, "ev": True}], dims=(2,), tri=True, out=True)
+                                          {"nb": False, "ev": True}, {"nb": True, "ev": True, "pos": False}], dims=(2,), tri=True, out=True)
 def e_nem(w, q, out, ctx):
     of = "nem" if out else ""
-    no = _nem(w, q["nb"], ctx)
+    no = _nem(w, q["nb"], ctx, q.get("pos", True))
     res = no.tensor(ndim=2, neighborfile=w.files["neigh"] if q["nb"] else "", Nmax=30, eigvals=q["ev"], outputfile=of)
     # the side files are written unconditionally (with an empty prefix when no name is given)
     _npy_check("NematicOrder.tensor(Q)", of + (".QIJ_cg.npy" if q["nb"] else ".QIJ_raw.npy"), no.QIJ)
@@ -705,36 +786,37 @@ def e_nem(w, q, out, ctx):
     return (res, no.QIJ)
 
 
-@entry("NematicOrder.spatial_corr", "nematic", [{"nb": False, "rd": 0.1}, {"nb": True, "rd": 0.1}, {"nb": False, "rd": 0.07}],
+@entry("NematicOrder.spatial_corr", "nematic", [{"nb": False, "rd": 0.1}, {"nb": True, "rd": 0.1}, {"nb": False, "rd": 0.07},
+                                                {"nb": True, "rd": 0.07, "dflt": True}],
        dims=(2,), tri=True, out=True)
 def e_nem_sc(w, q, out, ctx):
-    of = "nem_g.csv" if out else ""
+    of = ctx.nm("nem_g.csv") if out else ""
     no = _nem(w, q["nb"], ctx)
-    res = no.spatial_corr(rdelta=q["rd"], ppp=w.A["ppp"], outputfile=of)
+    res = no.spatial_corr(rdelta=q["rd"], outputfile=of, **_ppp_kw(w, q, 2))
     if out:
         _csv_check("NematicOrder.spatial_corr", of, res)
     return (res, no.QIJ)
 
 
-@entry("NematicOrder.time_corr", "nematic", [{"nb": False}, {"nb": True}], dims=(2,), tri=True, out=True)
+@entry("NematicOrder.time_corr", "nematic", [{"nb": False}, {"nb": True}, {"nb": False, "pos": False}], dims=(2,), tri=True, out=True)
 def e_nem_tc(w, q, out, ctx):
-    of = "nem_t.csv" if out else ""
-    no = _nem(w, q["nb"], ctx)
+    of = ctx.nm("nem_t.csv") if out else ""
+    no = _nem(w, q["nb"], ctx, q.get("pos", True))
     res = no.time_corr(dt=w.dt, outputfile=of)
     if out:
         _csv_check("NematicOrder.time_corr", of, res)
     return (res, no.QIJ)
 
 
-@entry("gyration_tensor", "order", [{"s": "x", "n": 0}, {"s": "xu", "n": 1}, {"s": "x", "n": 1}], tri=True)
+@entry("gyration_tensor", "order", [{"s": "x", "n": 0}, {"s": "xu", "n": 1}, {"s": "x", "n": 1}, {"s": "xu", "n": -1}], tri=True)
 def e_gyr(w, q, out, ctx):
-    return list(gyration_tensor(w.snaps[q["s"]].snapshots[q["n"]].positions))
+    return list(gyration_tensor(w.snaps[q["s"]].snapshots[_fr(w, q)].positions))
 
 
-@entry("packing_capability_2d", "order", [{}], dims=(2,), tri=True, out=True)
+@entry("packing_capability_2d", "order", [{}, {"dflt": True}], dims=(2,), tri=True, out=True)
 def e_pc(w, q, out, ctx):
     of = "pc.npy" if out else ""
-    res = packing_capability_2d(w.snaps["x"], w.A["pcsig"], w.files["neigh"], ppp=w.A["ppp"], outputfile=of)
+    res = packing_capability_2d(w.snaps["x"], w.A["pcsig"], w.files["neigh"], outputfile=of, **_ppp_kw(w, q, 2))
     if out:
         _npy_check("packing_capability_2d", of, res)
     return res
@@ -744,7 +826,11 @@ def e_pc(w, q, out, ctx):
 
 _HS = [{"model": "lj", "shift": True, "n": 0, "se": True, "sh": True}, {"model": "ipl", "shift": False, "n": 1, "se": True, "sh": False},
        {"model": "hz", "shift": True, "n": 0, "se": False, "sh": True}, {"model": "lj", "shift": False, "n": 1, "se": False, "sh": False},
-       {"model": "lj", "shift": True, "n": 0, "se": False, "sh": False}, {"model": "ipl", "shift": True, "n": 0, "se": True, "sh": True}]
+       {"model": "lj", "shift": True, "n": 0, "se": False, "sh": False}, {"model": "ipl", "shift": True, "n": 0, "se": True, "sh": True},
+       # "hzobj": Lennard-Jones / inverse power law on the object that also serves the harmonic model (i = 2: same snapshot,
+       # shift flag, sigma and cut-off tables): one HessianMatrix, several models in any order
+       {"model": "lj", "shift": True, "n": 0, "se": False, "sh": False, "hzobj": True},
+       {"model": "ipl", "shift": True, "n": 0, "se": False, "sh": True, "hzobj": True}]
 
 
 def _hess_setup(w, c, ctx):
@@ -754,13 +840,16 @@ def _hess_setup(w, c, ctx):
         ip, sig, rc = InteractionParams(model_name=ModelName.inverse_power_law, ipl_n=10, ipl_A=1.0), w.A["hsig"], w.A["hrc"]
     else:
         ip, sig, rc = InteractionParams(model_name=ModelName.harmonic_hertz, harmonic_hertz_alpha=2.5), w.A["hsig_hz"], w.A["hrc_hz"]
-    h = ctx.obj(("hess", c["model"] == "hz", c["n"], c["shift"]),
-                lambda: HessianMatrix(snapshot=w.snaps["x"].snapshots[c["n"]], masses=w.masses, epsilons=w.A["heps"], sigmas=sig,
+    if c.get("hzobj"):
+        sig, rc = w.A["hsig_hz"], w.A["hrc_hz"]
+    h = ctx.obj(("hess", c["model"] == "hz" or bool(c.get("hzobj")), c["n"], c["shift"]),
+                lambda: HessianMatrix(snapshot=w.snaps["x"].snapshots[c["n"] % w.T], masses=w.masses, epsilons=w.A["heps"], sigmas=sig,
                                       r_cuts=rc, ppp=w.A["ppp"], shiftpotential=c["shift"]))
     return ip, h
 
 
-@entry("HessianMatrix.diagonalize_hessian", "hess", [{"i": 0}, {"i": 1}, {"i": 2}, {"i": 3}, {"i": 4}, {"i": 5}], tri=True, out=True)
+@entry("HessianMatrix.diagonalize_hessian", "hess", [{"i": 0}, {"i": 1}, {"i": 2}, {"i": 3}, {"i": 4}, {"i": 5}, {"i": 6}, {"i": 7}],
+       tri=True, out=True)
 def e_hess(w, q, out, ctx):
     c = _HS[q["i"]]
     ip, h = _hess_setup(w, c, ctx)
@@ -789,28 +878,36 @@ def e_pairint(w, q, out, ctx):
     ips = [InteractionParams(model_name=ModelName.lennard_jones),
            InteractionParams(model_name=ModelName.inverse_power_law, ipl_n=10, ipl_A=1.0),
            InteractionParams(model_name=ModelName.harmonic_hertz, harmonic_hertz_alpha=2.5)]
-    return ([pi.caller(ip) for ip in ips], pi.lennard_jones(), pi.inverse_power_law(n=12, A=0.5), pi.harmonic_hertz(alpha=2.0))
+    first = [pi.caller(ip) for ip in ips]
+    res = (first, pi.lennard_jones(), pi.inverse_power_law(n=12, A=0.5), pi.harmonic_hertz(alpha=2.0))
+    # the same evaluations once more on the SAME object, after the other models ran on it
+    from .c18_world import same
+    m = same(first, [pi.caller(ip) for ip in ips], "caller(model)") or same(res[1], pi.lennard_jones(), "lennard_jones()")
+    if m:
+        raise Violation(f"PairInteractions: the same evaluation on one object gives another result after other models were "
+                        f"evaluated on it: {m}")
+    return res
 
 
 # ============================================================================= small utilities / writer
 
-@entry("write_dump_header", "misc", [{"n": 0}, {"n": 1}], tri=True)
+@entry("write_dump_header", "misc", [{"n": 0}, {"n": 1}, {"n": -1, "add": None}], tri=True)
 def e_wdh(w, q, out, ctx):
-    sn = w.snaps["x"].snapshots[q["n"]]
-    return (write_dump_header(sn.timestep, sn.nparticle, sn.boxbounds, addson="q6"),
+    sn = w.snaps["x"].snapshots[_fr(w, q)]
+    return (write_dump_header(sn.timestep, sn.nparticle, sn.boxbounds, addson=q.get("add", "q6")),
             write_data_header(sn.nparticle, w.K, sn.boxbounds))
 
 
-@entry("remove_pbc", "misc", [{"n": 0, "one": False}, {"n": 1, "one": True}], tri=True)
+@entry("remove_pbc", "misc", [{"n": 0, "one": False}, {"n": 1, "one": True}, {"n": -1, "one": False, "dflt": True}], tri=True)
 def e_rpbc(w, q, out, ctx):
-    sn = w.snaps["x"].snapshots[q["n"]]
-    R = w.A["vec"][q["n"]]
-    return remove_pbc(R[0] if q["one"] else R, sn.hmatrix, w.A["ppp"])
+    sn = w.snaps["x"].snapshots[_fr(w, q)]
+    R = w.A["vec"][_fr(w, q)]
+    return remove_pbc(R[0] if q["one"] else R, sn.hmatrix, *_ppp_kw(w, q, 3).values())
 
 
-@entry("cage_relative", "misc", [{"n": 0}, {"n": 1}], tri=True)
+@entry("cage_relative", "misc", [{"n": 0}, {"n": 1}, {"n": -1}], tri=True)
 def e_cage(w, q, out, ctx):
-    return cage_relative(w.A["vec"][q["n"]], w.A["cnlist"])
+    return cage_relative(w.A["vec"][_fr(w, q)], w.A["cnlist"])
 
 
 @entry("s2_integral", "misc", [{}], tri=True)
@@ -820,7 +917,7 @@ def e_s2i(w, q, out, ctx):
 
 @entry("Filon_COS", "misc", [{"a": 0, "odd": False}, {"a": 3.0, "odd": False}, {"a": 0, "odd": True}], tri=True, out=True)
 def e_filon(w, q, out, ctx):
-    of = "filon.csv" if out else ""
+    of = ctx.nm("filon.csv") if out else ""
     sfx = "_odd" if q["odd"] else ""
     res = Filon_COS(w.A["filC" + sfx], w.A["filT" + sfx], a=q["a"], outputfile=of)
     if out:
@@ -828,10 +925,10 @@ def e_filon(w, q, out, ctx):
     return res
 
 
-@entry("triangle_area", "misc", [{"n": 0}, {"n": 1}], tri=True)
+@entry("triangle_area", "misc", [{"n": 0}, {"n": 1}, {"n": -1, "dflt": True}], tri=True)
 def e_tri(w, q, out, ctx):
-    sn = w.snaps["x"].snapshots[q["n"]]
-    return triangle_area(sn.positions[:3], sn.hmatrix, w.A["ppp"])
+    sn = w.snaps["x"].snapshots[_fr(w, q)]
+    return triangle_area(sn.positions[:3], sn.hmatrix, *_ppp_kw(w, q, 2).values())
 
 
 @entry("convert_configuration", "voro", [{"s": "x"}, {"s": "xu"}])
@@ -840,15 +937,18 @@ def e_convcfg(w, q, out, ctx):
     return ([np.array([b.Lx, b.Ly, b.Lz, b.xy, b.xz, b.yz]) for b in boxes], list(points))
 
 
-@entry("voropp.get_input", "voro", [{"s": "x"}, {"s": "xu"}], tri=True)
+@entry("voropp.get_input", "voro", [{"s": "x"}, {"s": "xu"}, {"s": "x", "dflt": True}], tri=True)
 def e_getinput(w, q, out, ctx):
-    position, bounds = get_input(w.snaps[q["s"]], w.radii)
+    if q.get("dflt") and _labels_12(w):  # the default radii = {1: 0.5, 2: 0.5} cover the species of this world
+        position, bounds = get_input(w.snaps[q["s"]])
+    else:
+        position, bounds = get_input(w.snaps[q["s"]], w.radii)
     return (list(position), list(bounds))
 
 
 @entry("voropp.indicehis", "voro", [{}], tri=True, out=True)
 def e_indicehis(w, q, out, ctx):
-    of = "indices.dat" if out else None
+    of = ctx.nm("indices.dat") if out else None
     ret = indicehis(w.files["voroindex"], outputfile=of)
     return (ret, _text(of, "indicehis") if out else None)
 
@@ -978,6 +1078,18 @@ def e_lammps_helpers(w, q, out, ctx):
             c = m.read_lammps_centertype(f, w.d, w.moltypes) if w.T > 2 else None
         return [_snap_struct(a), _snap_struct(b), _snap_struct(c)]
     return m.read_additions(w.files["dump"], w.d + 2 + w.d)
+
+
+@entry("reader_utils.containers", "reader", [{"s": "xu", "n": 0}, {"s": "x", "n": -1}, {"s": "xu", "n": -1}], tri=True)
+def e_containers(w, q, out, ctx):
+    """The frozen dataclasses themselves, built from the caller's arrays (the unwrapped coordinates lie outside the box):
+    constructing a SingleSnapshot / Snapshots must not touch the arrays handed to it."""
+    ru = _mod("reader.reader_utils")
+    src = w.snaps[q["s"]].snapshots[_fr(w, q)]
+    one = ru.SingleSnapshot(timestep=src.timestep, nparticle=src.nparticle, particle_type=src.particle_type,
+                            positions=src.positions, boxlength=src.boxlength, boxbounds=src.boxbounds,
+                            realbounds=src.realbounds, hmatrix=src.hmatrix)
+    return _snap_struct(ru.Snapshots(nsnapshots=1, snapshots=[one]))
 
 
 @entry("read_lammpslog", "reader", [{}], tri=True)
